@@ -1,369 +1,3 @@
--- GENERATED by /verif/harness/cmd/extract from /repo — do not edit.
--- transports/p2p/p2psync/manager.go: the event handlers and the functions they reach, translated by gen_syncmgr.go
--- (subset, primitive table, skip list, folded conditions: see its header; vocabulary: BHS/Model/SyncPrim.lean).
-import BHS.Model.SyncPrim
-
-set_option linter.unusedVariables false
-
-namespace BHS.Gen.SyncMgr
-open BHS BHS.Chain BHS.Sync
-variable {H : Type} [DecidableEq H]
-
-/-- const maxNetworkViolations = 3 -/
-def maxNetworkViolations : Int := (3 : Int)
-
-/-- const maxLastBlockTime = 60 * 3 * time.Second -/
-def maxLastBlockTime : Int := (((60 : Int) * (3 : Int)) * timeSecond)
-
-/-- body of the loop `for i := len(checkpoints) - 2; i >= 0; i--` of findNextHeaderCheckpoint -/
-def findNextHeaderCheckpoint_loop1 (cfg : Sync.Cfg H) (env : Env) (height : Int) (checkpoints : List (Nat × H)) (i : Int) (carried_ : Option (Nat × H)) : SyncM H (Ctl (Option (Nat × H)) (Option (Nat × H))) := do
-  let mut nextCheckpoint := carried_
-  if (decide (height ≥ (cpHeight (← index checkpoints i)))) then
-    return Ctl.brk nextCheckpoint
-  nextCheckpoint := (some (← index checkpoints i))
-  return Ctl.next nextCheckpoint
-
-/-- func (sm *SyncManager) findNextHeaderCheckpoint(height int32) *chaincfg.Checkpoint -/
-def findNextHeaderCheckpoint (cfg : Sync.Cfg H) (env : Env) (height : Int) : SyncM H (Option (Nat × H)) := do
-  let checkpoints : List (Nat × H) := cfg.checkpoints
-  -- skipped: sm.log.Info().Msgf("[Headers] findNextHeaderCheckpoint count: %d, height: %d", len(checkpoints), height)
-  if (decide ((lenOf checkpoints) = (0 : Int))) then
-    return none
-  let finalCheckpoint : Option (Nat × H) := (some (← index checkpoints ((lenOf checkpoints) - (1 : Int))))
-  if (decide (height ≥ (cpHeight (← deref finalCheckpoint)))) then
-    return none
-  -- skipped: sm.log.Info().Msgf("[Headers] height: %d, final checkpoint: %d", height, finalCheckpoint.Height)
-  let _ ← deref finalCheckpoint
-  let mut nextCheckpoint : Option (Nat × H) := finalCheckpoint
-  match ← forRange (downFrom ((lenOf checkpoints) - (2 : Int))) nextCheckpoint (findNextHeaderCheckpoint_loop1 cfg env height checkpoints) with
-  | LoopOut.ret r_ => return r_
-  | LoopOut.done carried_ => nextCheckpoint := carried_
-  return nextCheckpoint
-
-/-- func New(config *Config, peers map[*peerpkg.Peer]*peerpkg.SyncState) (*SyncManager, error) -/
-def New (cfg : Sync.Cfg H) (env : Env) : SyncM H (Option GoErr) := do
-  -- skipped (logger): syncManagerLogger := config.Logger.With().Str("p2pModule", "sync-manager").Logger()
-  -- sm := SyncManager{…}: configuration and plumbing only; syncPeer, headersFirstMode, nextCheckpoint start as their zero values
-  if (!cfg.disableCp) then
-    let height : Int := (← headersGetTipHeight)
-    setNextCheckpoint (← findNextHeaderCheckpoint cfg env height)
-    if (← getNextCheckpoint).isNone then
-      setHeadersFirstMode true
-  else
-    -- skipped: syncManagerLogger.Info().Msg("Checkpoints are disabled")
-    setHeadersFirstMode true
-  return none
-
-/-- func (sm *SyncManager) isSyncCandidate(peer *peerpkg.Peer) bool -/
-def isSyncCandidate (cfg : Sync.Cfg H) (env : Env) (peer : Nat) : SyncM H Bool := do
-  -- folded: sm.chainParams == &chaincfg.RegressionNetParams — the regression-test network is outside the model (isRegressionNet = false)
-  let nodeServices : Int := (← peerServices env peer)
-  if (decide ((bitAnd nodeServices sfNodeNetwork) ≠ sfNodeNetwork)) then
-    return false
-  return true
-
-/-- body of the loop `for peer, state := range sm.peerStates` of startSync -/
-def startSync_loop1 (cfg : Sync.Cfg H) (env : Env) (best : Int) (kv_ : Nat × SyncStateV) (carried_ : List Nat × List Nat) : SyncM H (Ctl (List Nat × List Nat) Unit) := do
-  let (peer, state) := kv_
-  let mut (bestPeers, okPeers) := carried_
-  if (!state.syncCandidate) then
-    return Ctl.next (bestPeers, okPeers)
-  if (decide ((← peerLastBlock peer) = best)) then
-    okPeers := (okPeers ++ [peer])
-    return Ctl.next (bestPeers, okPeers)
-  if (decide ((← peerLastBlock peer) < best)) then
-    peerStatesSetCandidate peer false
-    return Ctl.next (bestPeers, okPeers)
-  bestPeers := (bestPeers ++ [peer])
-  return Ctl.next (bestPeers, okPeers)
-
-/-- func (sm *SyncManager) startSync() -/
-def startSync (cfg : Sync.Cfg H) (env : Env) : SyncM H Unit := do
-  -- skipped: sm.log.Info().Msg("[Manager] startSync")
-  if (← getSyncPeer).isSome then
-    return ()
-  let best : Int := (← headersGetTipHeight)
-  let mut bestPeers : List Nat := []
-  let mut okPeers : List Nat := []
-  match ← forRange (← peerStatesRange) (bestPeers, okPeers) (startSync_loop1 cfg env best) with
-  | LoopOut.ret r_ => return r_
-  | LoopOut.done carried_ => (bestPeers, okPeers) := carried_
-  let mut bestPeer : Option Nat := none
-  if (decide ((lenOf bestPeers) > (0 : Int))) then
-    let (randInt_, err) ← randInt env (lenOf bestPeers)
-    if err.isNone then
-      bestPeer := (some (← index bestPeers randInt_))
-  else if (decide ((lenOf okPeers) > (0 : Int))) then
-    let (randInt__1, err_1) ← randInt env (lenOf okPeers)
-    if err_1.isNone then
-      bestPeer := (some (← index okPeers randInt__1))
-  if bestPeer.isSome then
-    let locator : List H := (← headersLatestHeaderLocator)
-    -- skipped: sm.log.Info().Msgf("Syncing to block height %d from peer %v", bestPeer.LastBlock(), bestPeer.Addr())
-    let _ ← deref bestPeer
-    if ((← andThen ((← getNextCheckpoint).isSome) (do pure (decide (best < (cpHeight (← deref (← getNextCheckpoint))))))) && (!isRegressionNet)) then
-      -- skipped: sm.log.Info().Msg("[Headers] startSync - Request for next headers batch")
-      let err_2 : Option GoErr := (← peerPushGetHeadersMsg (← deref bestPeer) locator (cpHash (← deref (← getNextCheckpoint))))
-      if err_2.isSome then
-        -- skipped: sm.log.Info().Msg(err.Error())
-        pure ()
-      setHeadersFirstMode true
-      -- skipped: sm.log.Info().Msgf("Downloading headers for blocks %d to "+ // "%d from peer %s", best.Height+1, "%d from p...
-      let _ ← deref (← getNextCheckpoint)
-      let _ ← deref bestPeer
-    else
-      -- skipped: sm.log.Info().Msg("[Headers] Initial request")
-      let err_3 : Option GoErr := (← peerPushGetHeadersMsg (← deref bestPeer) locator cfg.zero)
-      if err_3.isSome then
-        -- skipped: sm.log.Info().Msg(err.Error())
-        pure ()
-    peerSetSyncPeer (← deref bestPeer) true
-    setSyncPeer bestPeer
-    -- skipped (unmodelled state): sm.syncPeerState = &syncPeerState{ lastBlockTime: time.Now(), recvBytes: bestPeer.BytesReceived(), recvByte...
-  else
-    -- skipped: sm.log.Warn().Msg("No sync peer candidates available")
-    pure ()
-  return ()
-
-/-- func (sm *SyncManager) handleNewPeerMsg(peer *peerpkg.Peer) -/
-def handleNewPeerMsg (cfg : Sync.Cfg H) (env : Env) (peer : Nat) : SyncM H Unit := do
-  if (decide ((← shutdownFlag) ≠ (0 : Int))) then
-    return ()
-  -- skipped: sm.log.Info().Msgf("New valid peer %s (%s)", peer, peer.UserAgent())
-  let isSyncCandidate_ : Bool := (← isSyncCandidate cfg env peer)
-  -- skipped: peerpkg.SyncStatesMtx.Lock()
-  peerStatesPut peer isSyncCandidate_
-  -- skipped: peerpkg.SyncStatesMtx.Unlock()
-  if (isSyncCandidate_ && (← getSyncPeer).isNone) then
-    startSync cfg env
-  return ()
-
-/-- func (sm *SyncManager) updateSyncPeer() -/
-def updateSyncPeer (cfg : Sync.Cfg H) (env : Env) : SyncM H Unit := do
-  -- skipped: sm.log.Info().Msgf("Updating sync peer, last block: %v, violations: %v", sm.syncPeerState.lastBlockTime, sm...
-  peerDisconnect (← deref (← getSyncPeer))
-  peerSetSyncPeer (← deref (← getSyncPeer)) false
-  setSyncPeer none
-  -- skipped (unmodelled state): sm.syncPeerState = nil
-  if (← getHeadersFirstMode) then
-    -- skipped: sm.log.Info().Msg("[Manager] updateSyncPeer, resetHeaderState")
-    -- skipped (only used in log lines): best := sm.Services.Headers.GetTip()
-    -- skipped: sm.log.Info().Msgf("[Manager] BestSnapshot : %#v", best)
-    pure ()
-  startSync cfg env
-  return ()
-
-/-- func (sm *SyncManager) handleDonePeerMsg(peer *peerpkg.Peer) -/
-def handleDonePeerMsg (cfg : Sync.Cfg H) (env : Env) (peer : Nat) : SyncM H Unit := do
-  let exists_ ← peerStatesHas peer
-  if (!exists_) then
-    -- skipped: sm.log.Warn().Msgf("Received done peer message for unknown peer %s", peer)
-    return ()
-  -- skipped: peerpkg.SyncStatesMtx.Lock()
-  peerStatesDelete peer
-  -- skipped: peerpkg.SyncStatesMtx.Unlock()
-  -- skipped: sm.log.Info().Msgf("Lost peer %s", peer)
-  if (decide ((some peer) = (← getSyncPeer))) then
-    updateSyncPeer cfg env
-  return ()
-
-/-- func verifyCheckpointHeight(sm *SyncManager, h domains.BlockHeader, receivedCheckpoint bool, peer *peerpkg.Peer) (bool, error) -/
-def verifyCheckpointHeight (cfg : Sync.Cfg H) (env : Env) (h : Row H) (receivedCheckpoint : Bool) (peer : Nat) : SyncM H (Bool × Option GoErr) := do
-  let mut receivedCheckpoint := receivedCheckpoint
-  if (← andThen ((← getNextCheckpoint).isSome) (do pure (decide ((rowHeight h) = (cpHeight (← deref (← getNextCheckpoint))))))) then
-    if (decide (h.hash = (cpHash (← deref (← getNextCheckpoint))))) then
-      receivedCheckpoint := true
-      -- skipped: sm.log.Info().Msgf("Verified downloaded block "+ "header against checkpoint at height "+ "%d/hash %s", h.He...
-    else
-      -- skipped: sm.log.Warn().Msgf("Block header at height %d/hash "+ "%s from peer %s does NOT match "+ "expected checkpoi...
-      let _ ← deref (← getNextCheckpoint)
-      peerDisconnect peer
-      let _ ← deref (← getNextCheckpoint)
-      return (false, (some GoErr.other))
-  return (receivedCheckpoint, none)
-
-/-- func (sm *SyncManager) sendGetHeadersWithPassedParams(chainHash []*chainhash.Hash, stopHash *chainhash.Hash, peer *peerpkg.Peer) -/
-def sendGetHeadersWithPassedParams (cfg : Sync.Cfg H) (env : Env) (chainHash : List H) (stopHash : H) (peer : Nat) : SyncM H Unit := do
-  let locator : List H := chainHash
-  let err : Option GoErr := (← peerPushGetHeadersMsg peer locator stopHash)
-  if err.isSome then
-    -- skipped: sm.log.Warn().Msgf("Failed to send getheaders message to "+ "peer %s: %v", peer.Addr(), err)
-    pure ()
-  return ()
-
-/-- func (sm *SyncManager) requestForNextHeaderBatch(prevHash *chainhash.Hash, peer *peerpkg.Peer, prevHeight int32) -/
-def requestForNextHeaderBatch (cfg : Sync.Cfg H) (env : Env) (prevHash : H) (peer : Nat) (prevHeight : Int) : SyncM H Unit := do
-  -- skipped: sm.log.Info().Msgf("[Manager] receivedCheckpoint : %d", sm.nextCheckpoint.Height)
-  let _ ← deref (← getNextCheckpoint)
-  -- skipped: sm.log.Info().Msgf("[Manager] nextCheckpoint.Height : %d", sm.nextCheckpoint.Height)
-  let _ ← deref (← getNextCheckpoint)
-  -- skipped: sm.log.Info().Msgf("[Manager] nextCheckpoint.Hash : %v", sm.nextCheckpoint.Hash)
-  let _ ← deref (← getNextCheckpoint)
-  sendGetHeadersWithPassedParams cfg env [prevHash] (cpHash (← deref (← getNextCheckpoint))) peer
-  if (← getSyncPeer).isSome then
-    -- skipped: sm.log.Info().Msgf("Downloading headers for blocks %d to %d from "+ "peer %s", prevHeight+1, sm.nextCheckpo...
-    let _ ← deref (← getNextCheckpoint)
-    let _ ← deref (← getSyncPeer)
-  return ()
-
-/-- body of the loop `for _, blockHeader := range msg.Headers` of handleHeadersMsg -/
-def handleHeadersMsg_loop1 (cfg : Sync.Cfg H) (env : Env) (peer : Nat) (blockHeader : Src H) (carried_ : Bool × Option H) : SyncM H (Ctl (Bool × Option H) Unit) := do
-  let mut (receivedCheckpoint, finalHash) := carried_
-  let (h, addErr) ← chainsAdd cfg blockHeader
-  if (errIs "HeaderAlreadyExists" addErr) then
-    return Ctl.next (receivedCheckpoint, finalHash)
-  if (errIs "BlockRejected" addErr) then
-    banPeer peer
-    peerDisconnect peer
-    return Ctl.ret ()
-  if (errIs "HeaderSaveFail" addErr) then
-    -- skipped: sm.log.Error().Msgf("Couldn't save header %v in database, because of %+v", h, addErr)
-    return Ctl.next (receivedCheckpoint, finalHash)
-  if (errIs "HeaderCreationFail" addErr) then
-    -- skipped: sm.log.Error().Msgf("Couldn't create header from %v because of error %+v", blockHeader, addErr)
-    return Ctl.next (receivedCheckpoint, finalHash)
-  if (errIs "ChainUpdateFail" addErr) then
-    -- skipped: sm.log.Error().Msgf("When adding header %v couldn't update chains state because of error %+v", blockHeader,...
-    return Ctl.next (receivedCheckpoint, finalHash)
-  -- skipped: sm.logSyncState(h.Height)
-  let _ ← deref h
-  let mut err : Option GoErr := none
-  (receivedCheckpoint, err) ← verifyCheckpointHeight cfg env (← deref h) receivedCheckpoint peer
-  if err.isSome then
-    -- skipped: sm.log.Warn().Msg(err.Error())
-    return Ctl.ret ()
-  if (rowIsLongestChain (← deref h)) then
-    finalHash := (some ((← deref h).hash))
-  -- skipped (unmodelled state): if sm.startHeader == nil { sm.startHeader = h }
-  return Ctl.next (receivedCheckpoint, finalHash)
-
-/-- func (sm *SyncManager) handleHeadersMsg(hmsg *headersMsg) -/
-def handleHeadersMsg (cfg : Sync.Cfg H) (env : Env) (hmsg_peer : Nat) (hmsg_headers : List (Src H)) : SyncM H Unit := do
-  let peer : Nat := hmsg_peer
-  let exists_ ← peerStatesHas peer
-  if (!exists_) then
-    -- skipped: sm.log.Warn().Msgf("Received headers message from unknown peer %s", peer)
-    return ()
-  let msg : List (Src H) := hmsg_headers
-  let numHeaders : Int := (lenOf msg)
-  -- skipped: sm.log.Info().Msgf("[Headers] received headers count: %d", numHeaders)
-  if (!(← getHeadersFirstMode)) then
-    -- skipped: sm.log.Warn().Msgf("Got %d unrequested headers from %s -- disconnecting", numHeaders, peer.Addr())
-    peerDisconnect peer
-    return ()
-  if (decide (numHeaders = (0 : Int))) then
-    return ()
-  let mut receivedCheckpoint : Bool := false
-  let mut finalHash : Option H := none
-  match ← forRange msg (receivedCheckpoint, finalHash) (handleHeadersMsg_loop1 cfg env peer) with
-  | LoopOut.ret r_ => return r_
-  | LoopOut.done carried_ => (receivedCheckpoint, finalHash) := carried_
-  if finalHash.isNone then
-    -- skipped: sm.log.Warn().Msgf("Received only existing or rejected headers from peer: %s", peer.String())
-    return ()
-  if receivedCheckpoint then
-    -- skipped: sm.log.Info().Msgf("Received checkpoint headers: %v - Fetching next headers", sm.Services.Headers.CountHead...
-    let prevHeight : Int := (cpHeight (← deref (← getNextCheckpoint)))
-    let prevHash : H := (cpHash (← deref (← getNextCheckpoint)))
-    setNextCheckpoint (← findNextHeaderCheckpoint cfg env prevHeight)
-    if (← getNextCheckpoint).isSome then
-      requestForNextHeaderBatch cfg env prevHash peer prevHeight
-      return ()
-  if (← getNextCheckpoint).isNone then
-    -- skipped: sm.log.Info().Msgf("Reached the final checkpoint -- switching to normal mode")
-    -- skipped: sm.log.Info().Msgf("Reached the final checkpoint -- lastHash: %#v", finalHash.String())
-    let _ ← deref finalHash
-    let locator : List H := (← headersLatestHeaderLocator)
-    sendGetHeadersWithPassedParams cfg env locator cfg.zero peer
-    return ()
-  let locator_1 : List H := (← headersLatestHeaderLocator)
-  sendGetHeadersWithPassedParams cfg env locator_1 (cpHash (← deref (← getNextCheckpoint))) peer
-  return ()
-
-/-- body of the loop `for i := len(invVects) - 1; i >= 0; i--` of searchForFinalBlock -/
-def searchForFinalBlock_loop1 (cfg : Sync.Cfg H) (env : Env) (invVects : List (Bool × H)) (i : Int) (carried_ : Int) : SyncM H (Ctl Int Int) := do
-  let mut lastBlock := carried_
-  if (invIsBlock (← index invVects i)) then
-    lastBlock := i
-    return Ctl.brk lastBlock
-  return Ctl.next lastBlock
-
-/-- func searchForFinalBlock(invVects []*wire.InvVect) int -/
-def searchForFinalBlock (cfg : Sync.Cfg H) (env : Env) (invVects : List (Bool × H)) : SyncM H Int := do
-  let mut lastBlock : Int := (-1 : Int)
-  match ← forRange (downFrom ((lenOf invVects) - (1 : Int))) lastBlock (searchForFinalBlock_loop1 cfg env invVects) with
-  | LoopOut.ret r_ => return r_
-  | LoopOut.done carried_ => lastBlock := carried_
-  return lastBlock
-
-/-- func (sm *SyncManager) current() bool -/
-def current (cfg : Sync.Cfg H) (env : Env) : SyncM H Bool := do
-  if (!(← headersIsCurrent cfg)) then
-    return false
-  if (← getSyncPeer).isNone then
-    return true
-  if (decide ((← headersGetTipHeight) < (← peerLastBlock (← deref (← getSyncPeer))))) then
-    return false
-  return true
-
-/-- func (sm *SyncManager) handleInvMsg(imsg *invMsg) -/
-def handleInvMsg (cfg : Sync.Cfg H) (env : Env) (imsg_peer : Nat) (imsg_inv : List (Bool × H)) : SyncM H Unit := do
-  -- skipped (only used in log lines): typeMap := map[wire.InvType]string{ wire.InvTypeBlock: "Block", wire.InvTypeTx: "Tx", wire.InvTypeError: "E...
-  -- skipped: sm.log.Info().Msgf("[Headers] handleInvMsg, peer.ID: %d, invType: %s", imsg.peer.ID(), typeMap[imsg.inv.Inv...
-  let _ ← index imsg_inv (0 : Int)
-  let peer : Nat := imsg_peer
-  let exists_ ← peerStatesHas peer
-  if (!exists_) then
-    -- skipped: sm.log.Warn().Msgf("Received inv message from unknown peer %s", peer)
-    return ()
-  let invVects : List (Bool × H) := imsg_inv
-  let lastBlock : Int := (← searchForFinalBlock cfg env invVects)
-  if (← andThen (decide (lastBlock ≠ (-1 : Int))) (do pure (← orElse (decide ((some peer) ≠ (← getSyncPeer))) (do pure (← current cfg env))))) then
-    peerUpdateLastAnnouncedBlock peer (invHash (← index invVects lastBlock))
-  if (← andThen (decide ((some peer) ≠ (← getSyncPeer))) (do pure (!(← current cfg env)))) then
-    return ()
-  if (← andThen (decide (lastBlock ≠ (-1 : Int))) (do pure (← current cfg env))) then
-    let (blkHeight, err) ← headersGetHeightByHash (invHash (← index invVects lastBlock))
-    if err.isNone then
-      peerUpdateLastBlockHeight peer blkHeight
-      return ()
-  if (decide (lastBlock ≠ (-1 : Int))) then
-    let locator : List H := (← headersLatestHeaderLocator)
-    -- skipped: sm.log.Info().Msgf("[Manager] handleInvMsg tip hash : %s", locator[0])
-    let _ ← index locator (0 : Int)
-    -- skipped: sm.log.Info().Msgf("[Manager] handleInvMsg &invVects[lastBlock].Hash : %v", &invVects[lastBlock].Hash)
-    let _ ← index invVects lastBlock
-    -- skipped: sm.log.Info().Msg("[Manager] handleInvMsg requesting for all the headers since our tip")
-    sendGetHeadersWithPassedParams cfg env locator cfg.zero peer
-  return ()
-
-/-- func (sm *SyncManager) topBlock() int32 -/
-def topBlock (cfg : Sync.Cfg H) (env : Env) : SyncM H Int := do
-  if (decide ((← peerLastBlock (← deref (← getSyncPeer))) > (← peerStartingHeight (← deref (← getSyncPeer))))) then
-    return (← peerLastBlock (← deref (← getSyncPeer)))
-  return (← peerStartingHeight (← deref (← getSyncPeer)))
-
-/-- func (sm *SyncManager) handleCheckSyncPeer() -/
-def handleCheckSyncPeer (cfg : Sync.Cfg H) (env : Env) : SyncM H Unit := do
-  if (decide ((← shutdownFlag) ≠ (0 : Int))) then
-    return ()
-  if (← getSyncPeer).isNone then
-    return ()
-  -- skipped (unmodelled state): defer sm.syncPeerState.updateNetwork(sm.syncPeer)
-  if ((decide (env.violations < maxNetworkViolations)) && (decide (env.sinceLastBlock ≤ maxLastBlockTime))) then
-    return ()
-  let best : Option (Row H) := (← headersGetTip)
-  if (decide ((← topBlock cfg env) ≤ (rowHeight (← deref best)))) then
-    -- skipped (unmodelled state): sm.syncPeerState.lastBlockTime = time.Now()
-    -- skipped (unmodelled state): sm.syncPeerState.violations = 0
-    return ()
-  let exists_ ← peerStatesHasOpt (← getSyncPeer)
-  if (!exists_) then
-    return ()
-  updateSyncPeer cfg env
-  return ()
-
-/-- the translated functions, callees first -/
-def translated : List String := ["findNextHeaderCheckpoint", "New", "isSyncCandidate", "startSync", "handleNewPeerMsg", "updateSyncPeer", "handleDonePeerMsg", "verifyCheckpointHeight", "sendGetHeadersWithPassedParams", "requestForNextHeaderBatch", "handleHeadersMsg", "searchForFinalBlock", "current", "handleInvMsg", "topBlock", "handleCheckSyncPeer"]
-
-end BHS.Gen.SyncMgr
+-- extraction failed: /dev/shm/mutrepo-yndA2g/transports/p2p/p2psync/manager.go:727:15: unsupported: call other.LastAnnouncedBlock()
+namespace BHS.Gen
+end BHS.Gen
